@@ -465,7 +465,25 @@ where
 
         let hash = hash_key(&self.hasher, &p_entry.key);
         let index = hash as usize % self.shards;
+        // Admit the restored entry to its shard's policy, exactly as the maintenance
+        // path does for an inserted one. Without this the policy never learns about
+        // restored keys: they can never be chosen as eviction victims and a cache
+        // restored over capacity can never get back under it.
+        let decision = cache_policy[index].on_admit(&p_entry.key, p_entry.cost);
+        if matches!(decision, crate::policy::AdmissionDecision::Reject) {
+          total_cost -= p_entry.cost;
+          continue;
+        }
         entries_by_shard[index].insert(p_entry.key, Arc::new(entry));
+        if let crate::policy::AdmissionDecision::AdmitAndEvict(victims) = decision {
+          for victim in victims {
+            let victim_index = hash_key(&self.hasher, &victim) as usize % self.shards;
+            if let Some(removed) = entries_by_shard[victim_index].remove(&victim) {
+              cache_policy[victim_index].on_remove(&victim);
+              total_cost -= removed.cost();
+            }
+          }
+        }
       }
       metrics.current_cost.store(total_cost, Ordering::Relaxed);
 
